@@ -3,6 +3,8 @@ C01  Pretty-printed output parses back to the same tree and is a fixpoint.
 
 proof   lean/CalmVerif/Props/C01.lean over Model.Unparse with the regenerated Gen.Defs / Gen.Rules (see the file for the
         exact statements; `..._partial` theorems exclude exactly the classes of the known findings listed below).
+typing  the hypothesis `wfVal` of the *_stream_typed theorems is evaluated by drv_rt on every tree printed (obligation
+        'slot typing holds on every parsed tree').
 tie     S3/S4 (parts/unparse_tie.py) real pretty printers vs Model.Unparse for six indent strings; S2 (parts/parsetie.py)
         real parser vs Model.Parser on the printed outputs.
 judge   (always, on the implementation; parts/roundtrip.py)  for every program and indent string: the output is re-parsed
@@ -15,7 +17,7 @@ from parts import roundtrip as R
 from parts import unparse_tie as ut
 
 SPEC = dict(gen=['defs', 'rules', 'tables', 'actions', 'lexdata', 'unicodecat'], props=['CalmVerif.Props.C01'],
-            drivers=['drv_unparse', 'drv_spec', 'drv_parse'], audit='Audit/C01.lean')
+            drivers=['drv_unparse', 'drv_spec', 'drv_parse', 'drv_rt'], audit='Audit/C01.lean')
 
 
 def jobs_of(text, indents=R.INDENTS, wc_indents=('  ', '\t')):
@@ -50,6 +52,7 @@ def run(ctx):
     ctx.sample(dict(text=R.FIXED[38], indent='\t', output=R.pretty(R.parse(R.FIXED[38]), '\t')))
     ctx.obligation('judge: output re-parses (real parser and ES5 reference) to the same structure and is a fixpoint', not bad,
                    'judge', '%d (program, comments, indent) cases judged; %d unexplained failures' % (n, len(bad)))
+    R.slot_typing(ctx, spec, res)
     trng = ctx.sub_rng('tie')
     items = list(R.FIXED) + trng.sample(texts, min(len(texts), ctx.n(40, 800)))
     R.tie(ctx, spec, items, ut.pretty_configs(R.INDENTS), lambda t: jobs_of(t, ('  ', '\t'), ('  ',)))
